@@ -26,9 +26,10 @@ def main():
     # Hook: a property module may regenerate Coq sources from the working tree (trace translator /
     # table extractor, coq/Gen/*.v) BEFORE the build.  pregen() must write a file that fails to check
     # (never a stale or default one) when it cannot interpret the source, and must not raise for that.
+    pregen_err = None
     if hasattr(mod, "pregen"):
         try:
-            mod.pregen()
+            pregen_err = mod.pregen()   # None, or a description of why the translator failed (fail-closed)
         except Exception:  # noqa: BLE001
             traceback.print_exc()
             print("HARNESS-ERROR property=%s (pregen)" % pid)
@@ -48,6 +49,9 @@ def main():
         else:
             ok = True
             rep.notes.append("another part of the Coq build failed; this property's files and the extraction built")
+    if pregen_err:
+        proof["broken"].insert(0, "translator: " + str(pregen_err))
+        proof["discharged"] = min(proof["discharged"], max(0, proof["obligations"] - 1))
     model = None
     try:
         if ok:
@@ -77,7 +81,7 @@ def main():
     if proof["broken"] and not rep.violations:
         rep.violation({"proof": proof["broken"]}, {"theorems": proof["theorems"], "note":
                       "a proof obligation / the build no longer checks; the numeric search found no failing input"},
-                      kind="proof-obligation")
+                      kind="translator" if pregen_err else "proof-obligation")
     rc = rep.finish(proof, getattr(mod, "RULE", ""), extra=extra,
                     assumptions=getattr(mod, "ASSUMPTIONS", []))
     sys.exit(rc)
